@@ -22,7 +22,9 @@ LEVEL_TEXT = ("Generated deployments: 2-5 agents, 1-6 computations each hosted o
               "keyword call and get_value_for_assignment, on ALL binary assignments of its scope (exhaustive when "
               "the scope has <= 12 variables, otherwise 1024 assignments spread by a fixed stride): hosted == 0 iff "
               "exactly one candidate selected, capacity == 0 iff selected footprints fit the remaining capacity, "
-              "hosting == sum of selected hosting costs, communication == its defining sum.")
+              "hosting == sum of selected hosting costs, communication == its defining sum; each value is read "
+              "through keyword arguments, an assignment dict, reversed keyword order and (small scopes) after slicing a "
+              "variable away first. A third of the cases query the same Discovery object a second time after re-hostings.")
 LEVEL_NOTE = ("Trusted: the reference formulas in this file. Inner enumeration is exhaustive per generated instance "
               "(evidence counts the assignments evaluated); the outer space (deployments) is sampled.")
 RULE = ("case = deployment + departed subset + cost tables; non-trivial = at least one orphaned computation with >=2 "
